@@ -89,6 +89,8 @@ def judge(res, cls, js, line, real, expected, bad):
 
 
 def explore(res, tier, seed, model_ok=True):
+    import gencheck   # differential test of the translated code (Generated/Code.lean) against the original Python
+    gencheck.run(res, 'C04', tier, seed, model_ok)
     rng = random.Random(seed)
     per = 14 if tier == 'quick' else 150
     res.rule = ('valid prefix (0-3 delivered messages, optionally an open fragmented message) + one violating frame of each of %d classes + later frames carrying a marker, random segmentation; '
